@@ -112,6 +112,11 @@ func Parse(b []byte) (message util.Message, err error) {
 	if len(b) < 8 {
 		return nil, errors.New("The []byte is too short to hold an OpenFlow header.")
 	}
+	// Decode exactly the message the header declares: bytes beyond its length
+	// are not part of it (the decoders' 16-bit cursors assume at most 65535 bytes).
+	if l := int(binary.BigEndian.Uint16(b[2:4])); l >= 8 && l < len(b) {
+		b = b[:l]
+	}
 	switch b[1] {
 	case Type_Hello:
 		message = new(common.Hello)
